@@ -35,6 +35,7 @@ type Program struct {
 	nextGlob int
 
 	globalUses map[*ssa.Global][]ssa.Instruction
+	ff         fieldFacts
 }
 
 func LoadProgram(repo, specDir string, patterns []string) (*Program, error) {
@@ -442,4 +443,86 @@ func (p *Program) checkSingleWriter(pkg, writer, field, label string) string {
 		}
 	}
 	return ""
+}
+
+// fieldInfo caches module-wide facts about struct fields.
+type fieldFacts struct {
+	immutable  map[string]bool
+	closeSites map[string]int
+	built      bool
+}
+
+func (p *Program) buildFieldFacts() {
+	p.mu.Lock()
+	defer p.mu.Unlock()
+	if p.ff.built {
+		return
+	}
+	p.ff.built = true
+	p.ff.immutable = map[string]bool{}
+	p.ff.closeSites = map[string]int{}
+	written := map[string]bool{}
+	seenField := map[string]bool{}
+	for fn := range ssautil.AllFunctions(p.ssa) {
+		for _, b := range fn.Blocks {
+			for _, ins := range b.Instrs {
+				switch x := ins.(type) {
+				case *ssa.FieldAddr:
+					pt := x.X.Type().Underlying().(*types.Pointer).Elem()
+					key := fieldKey(pt, x.Field)
+					seenField[key] = true
+					// any use of the field address other than a load is a potential write; stores into a
+					// freshly allocated object (composite literal / constructor) are initialisation
+					for _, r := range *x.Referrers() {
+						switch u := r.(type) {
+						case *ssa.UnOp, *ssa.DebugRef:
+						case *ssa.Store:
+							if u.Addr != ssa.Value(x) {
+								written[key] = true // address stored somewhere
+								continue
+							}
+							if _, fresh := x.X.(*ssa.Alloc); fresh {
+								continue
+							}
+							written[key] = true
+						case *ssa.FieldAddr, *ssa.IndexAddr:
+							// nested aggregate: handled by its own key
+						default:
+							written[key] = true
+						}
+					}
+				case ssa.CallInstruction:
+					c := x.Common()
+					if bi, ok := c.Value.(*ssa.Builtin); ok && bi.Name() == "close" && len(c.Args) == 1 {
+						if ld, ok := c.Args[0].(*ssa.UnOp); ok && ld.Op == token.MUL {
+							if fa, ok := ld.X.(*ssa.FieldAddr); ok {
+								pt := fa.X.Type().Underlying().(*types.Pointer).Elem()
+								p.ff.closeSites[fieldKey(pt, fa.Field)]++
+								continue
+							}
+						}
+						p.ff.closeSites["?"]++
+					}
+				}
+			}
+		}
+	}
+	for k := range seenField {
+		if !written[k] {
+			p.ff.immutable[k] = true
+		}
+	}
+}
+
+// fieldImmutable: the field is only ever stored into freshly allocated objects (initialisation).
+func (p *Program) fieldImmutable(key string) bool {
+	p.buildFieldFacts()
+	return p.ff.immutable[key]
+}
+
+// singleCloseSite: exactly one close(x.f) in the module for this field (and no close of unknown channels
+// of the same element type is tracked: closes through other expressions are counted under "?").
+func (p *Program) singleCloseSite(key string) bool {
+	p.buildFieldFacts()
+	return p.ff.closeSites[key] == 1
 }
